@@ -19,7 +19,7 @@ REQUIRED = (["digests-equal", "repeat-before", "repeat-between", "repeat-after",
              "primary-not-first-in-name-order", "dep-sorts-before-primary", "empty-struct",
              "dep-name-is-prefix-of-another(sorts-differently-when-rendered)", "sibling-document(same-signatures-one-dependency-changed)", "struct-name-outside-identifier-grammar", "primary-type-is-the-domain-type", "message-references-domain-type", "hook-encode-type-equal", "hook-member-kind"]
             + ["atom-" + a for a in ("bool", "address", "string", "bytes", "bytesN", "uint", "int")]
-            + ["domain-fields-%d" % k for k in range(1, 6)] + ["cli-accept-hashes-equal-and-signature-recovers"])
+            + ["domain-fields-%d" % k for k in range(1, 6)] + ["cli-accept-hashes-equal-and-signature-recovers", "array-dims>=32", "array-dims<32"])
 LOOKALIKES = {"bytes0", "uint9", "int264", "bytes33", "uint320", "uint256x", "int7", "bytes64"}
 
 
@@ -207,6 +207,23 @@ def gen(shard, rng, tier):
                     yield from both(_hash_case(text, shape or "random", tags))
     elif name == "domains":
         dom = '"EIP712Domain":[{"name":"name","type":"string"}]'
+        # member types with many array dimensions (the type grammar allows any number; an implementation's suffix buffer or
+        # recursion does not): dynamic and fixed dimensions mixed, one or two elements per level
+        for k in (4, 8, 16, 31, 32, 33, 48, 64):
+            dims = [rng.choice(["[]", "[]", "[1]", "[2]"]) for _ in range(k)]
+            leaf = lambda: str(rng.randrange(256))
+            def build(level):
+                if level < 0:
+                    return leaf()
+                n = {"[1]": 1, "[2]": 2}.get(dims[level], 1 if level % 5 else 2)
+                # only the innermost few levels branch, so that the value stays small
+                if level > 3 and dims[level] != "[2]":
+                    n = 1
+                return "[" + ",".join(build(level - 1) for _ in range(n)) + "]"
+            if sum(1 for d in dims if d == "[2]") > 6:
+                dims = ["[]" if (d == "[2]" and i > 5) else d for i, d in enumerate(dims)]
+            yield from both(_hash_case('{"types":{%s,"P":[{"name":"v","type":"uint8%s"}]},"primaryType":"P","domain":{"name":"x"},"message":{"v":%s}}'
+                                       % (dom, "".join(dims), build(k - 1)), "array-dims-%d" % k, ["array-dims>=32"] if k >= 32 else ["array-dims<32"]))
         for n in (255, 256, 257, 1000):
             # arrays with more than 255 elements, strings / bytes longer than 255 and 65535 bytes, structs with many members
             arr = ",".join(str(rng.randrange(256)) for _ in range(n))
